@@ -99,7 +99,22 @@ def pool():
     return calls
 
 
+_SHARED_OBJECTS = {"on": False, "cache": {}}
+
+
 def build_object(fmt, variant):
+    """The argument object of a dump call.  In sequential histories the *same* object is handed to
+    every call that uses it (a repeated call gets the very same argument), so that a writer that
+    modifies its argument shows up as a result depending on the history."""
+    if _SHARED_OBJECTS["on"]:
+        key = (fmt, variant)
+        if key not in _SHARED_OBJECTS["cache"]:
+            _SHARED_OBJECTS["cache"][key] = _build_object(fmt, variant)
+        return _SHARED_OBJECTS["cache"][key]
+    return _build_object(fmt, variant)
+
+
+def _build_object(fmt, variant):
     import numpy as np
 
     from ivp.gen import objects as OBJ
@@ -175,7 +190,7 @@ def run_call(call, workdir):
                 import numpy as np
 
                 fmt = call["fmt"]
-                frames = [build_object(fmt, "base") for _ in range(3)]
+                frames = [_build_object(fmt, "base") for _ in range(3)]  # modified below: never the shared ones
                 if fmt == "mol2":
                     for fr in frames:
                         fr.atcharges = {"mol2charges": np.zeros(fr.natom)}
@@ -208,6 +223,7 @@ def run_history(indices, nthreads=0):
         import iodata.api  # noqa: F401  (load all modules before the first snapshot)
 
         tables = S.module_tables()
+        _SHARED_OBJECTS["on"] = nthreads <= 1
         if nthreads <= 1:
             for pos, idx in enumerate(indices):
                 out["digests"][pos] = run_call(calls[idx], os.path.join(base, f"c{pos}"))
